@@ -320,7 +320,7 @@ static void build_batch (uint64_t first) {
 }
 
 /* =============================== one case =============================== */
-typedef struct { int st; int low32; int64_t ret; uint64_t mem, log; int nlog; } obs;
+typedef struct { int st; int low32; int misal; int64_t ret; uint64_t mem, log; int nlog; } obs;
 #define MAXIN 128
 static obs REF[MAXIN];
 static uint8_t snap[2][MH_BUF], gsnap[MH_BUF];
@@ -361,10 +361,10 @@ void drv_case (uint64_t idx) {
   if (mh_scan (&mc, PT) != 0) { vp_fail ("harness-scan-error", "%s", mc.errmsg); mh_close (&mc); return; }
   MIR_item_t f = mh_find_func (&mc, "f"); int ok = 0;
   for (int i = 0; i < nin; i++) {
-    if (defined_by_construction (fi)) { REF[i].st = RI_OK; REF[i].low32 = 0; ok++; continue; }
+    if (defined_by_construction (fi)) { REF[i].st = RI_OK; REF[i].low32 = 0; REF[i].misal = 0; ok++; continue; }
     mh_args a; ri_ctx ri; ri_val res[2]; set_input (fam->input (l, i), &a);
     ri_init (&ri, mc.ctx, mh_exts, mh_n_exts, 20000); memset (res, 0, sizeof res);
-    REF[i].st = mh_ref_call (&ri, f, &a, res); REF[i].low32 = res[0].taint;
+    REF[i].st = mh_ref_call (&ri, f, &a, res); REF[i].low32 = res[0].taint; REF[i].misal = ri.misaligned != 0;
     if (REF[i].st == RI_UNSUPPORTED || REF[i].st == RI_BAD) { vp_fail ("harness-refinterp", "reference interpreter cannot run the program: %s", ri.why); ri_finish (&ri); mh_close (&mc); return; }
     if (REF[i].st == RI_OK) ok++;
     ri_finish (&ri);
@@ -372,7 +372,7 @@ void drv_case (uint64_t idx) {
   if (!ok) { vp_count ("programs_undefined_on_every_input", 1); mh_close (&mc); return; }
   if (mh_link (&mc, E_INTERP) != 0) { vp_fail ("mir-error", "link for the interpreter: %s", mc.errmsg); mh_close (&mc); return; }
   char sym[80]; snprintf (sym, sizeof sym, "entry__%llu", (unsigned long long) idx);
-  uint64_t compared = 0, skipped = 0, beh = 7;
+  uint64_t compared = 0, skipped = 0, misal_skipped = 0, beh = 7;
   for (int i = 0; i < nin; i++) {
     if (REF[i].st != RI_OK) { skipped++; continue; }
     mh_args a; MIR_val_t res[2]; obs want, got; pinput in = fam->input (l, i); set_input (in, &a); memset (res, 0, sizeof res);
@@ -380,6 +380,10 @@ void drv_case (uint64_t idx) {
     want.ret = res[0].i; want.mem = mem_obs (fam, l); want.log = mh_log_hash (); want.nlog = mh_log_n;
     beh = vp_hash_u64 (beh, (uint64_t) (REF[i].low32 ? (uint32_t) want.ret : want.ret)); beh = vp_hash_u64 (beh, want.mem); beh = vp_hash_u64 (beh, want.log);
     for (int oi = 0; oi < n_opts; oi++) {
+      /* a misaligned access is defined by the MIR engines on x86-64 but undefined in the C translation (*(int64_t *) addr):
+         gcc -O2 forwards stores and analyses loop dependences on the assumption of natural alignment.  Such pairs are
+         compared at -O0/-O1 only, where gcc emits the plain machine access.  DESIGN.md §9. */
+      if (REF[i].misal && opt_levels[oi] >= 2) { misal_skipped++; continue; }
       void **ep = (void **) dlsym (so[oi], sym); cfun cf = ep ? (cfun) *ep : NULL;
       if (!cf) { vp_fail ("translation-lacks-function", "the compiled translation does not define %s", sym); mh_close (&mc); goto out; }
       set_input (in, &a);
@@ -400,7 +404,7 @@ void drv_case (uint64_t idx) {
   }
   mh_close (&mc);
 out:
-  vp_count ("evaluations", compared); vp_count ("unspecified_skipped", skipped); vp_outcome (beh);
+  vp_count ("evaluations", compared); vp_count ("unspecified_skipped", skipped); vp_count ("misaligned_not_compared_at_O2", misal_skipped); vp_outcome (beh);
   if (compared) vp_nontrivial ();
   if (l == 0 || l % 50021 == 7) { char d[1600]; drv_describe (idx, d, sizeof d); vp_sample ("%s", d); }
 }
